@@ -391,6 +391,9 @@ func (c *Ctx) guardedBy(g guardedField, exemptFns map[string]string) {
 }
 
 func isFreshObject(v ssa.Value) bool {
+	if fa, ok := v.(*ssa.FieldAddr); ok {
+		return isFreshObject(fa.X) // a struct embedded in a fresh object
+	}
 	switch x := v.(type) {
 	case *ssa.Alloc:
 		return true
